@@ -422,6 +422,7 @@ type replayer struct {
 	ctl      *xdb.Ctl
 	tipAnn   bool
 	log      []string
+	closed   bool
 	lastDone bool           // the user operation of the last step returned success
 	issued   map[string]int // wallet id -> addresses issued by completed operations (C06 re-issue decision)
 }
@@ -439,10 +440,16 @@ func newReplayer(t *rapid.T, ctl *xdb.Ctl) *replayer {
 	if err := env.StartStepped(); err != nil {
 		t.Fatalf("HARNESS: %v", err)
 	}
-	return &replayer{node: node, env: env, ctl: ctl, tipAnn: true, issued: map[string]int{}}
+	r := &replayer{node: node, env: env, ctl: ctl, tipAnn: true, issued: map[string]int{}}
+	t.Cleanup(r.close)
+	return r
 }
 
 func (r *replayer) close() {
+	if r.closed {
+		return
+	}
+	r.closed = true
 	r.env.Close()
 	r.node.Close()
 }
